@@ -62,6 +62,7 @@ fn entry(list: &mut Vec<Value>, group: &str, name: &str, state: &str, events: Ve
 }
 
 type Thin = ThinArc<A, u32>;
+type Fat = Arc<triomphe::HeaderSlice<triomphe::HeaderWithLength<A>, [u32]>>;
 fn thin(v: u32) -> Thin {
     ThinArc::from_header_and_slice(A::mk(v), &[1u32, 2, 3])
 }
@@ -98,6 +99,14 @@ pub fn run(out_path: &str) {
         inc!("ThinArc::clone", thin(1), |h: &Thin| h.heap_ptr() as usize, |h: &Thin| h.clone());
         inc!("clone inside ThinArc::with_arc", thin(1), |h: &Thin| h.heap_ptr() as usize, |h: &Thin| h.with_arc(|a| a.clone()));
 
+        // the arc-swap glue (RefCnt::inc = clone + into_ptr) and the fat header-slice handle
+        {
+            use arc_swap::RefCnt;
+            inc!("RefCnt::inc(Arc)", Arc::new(A::mk(1)), |h: &Arc<A>| h.heap_ptr() as usize, |h: &Arc<A>| <Arc<A> as RefCnt>::from_ptr(<Arc<A> as RefCnt>::inc(h)));
+            inc!("RefCnt::inc(ThinArc)", thin(1), |h: &Thin| h.heap_ptr() as usize, |h: &Thin| <Thin as RefCnt>::from_ptr(<Thin as RefCnt>::inc(h)));
+            inc!("Arc<HeaderSlice>::clone", Arc::from_thin(thin(1)), |h: &Fat| h.heap_ptr() as usize, |h: &Fat| h.clone());
+        }
+
         // ---------------------------------------------------------------- give up one owner
         macro_rules! dec {
             ($name:expr, $mk:expr, $heap:expr, $clone:expr) => {{
@@ -120,6 +129,23 @@ pub fn run(out_path: &str) {
         dec!("ArcUnion(second)::drop", ArcUnion::<A, B>::from_second(Arc::new(B::mk(1))), |h: &ArcUnion<A, B>| h.as_second().unwrap().with_arc(|a| a.heap_ptr() as usize), |h: &ArcUnion<A, B>| h.clone());
         dec!("ThinArc::drop", thin(1), |h: &Thin| h.heap_ptr() as usize, |h: &Thin| h.clone());
         dec!("UniqueArc::drop / shareable", UniqueArc::new(A::mk(1)).shareable(), |h: &Arc<A>| h.heap_ptr() as usize, |h: &Arc<A>| h.clone());
+        {
+            use arc_swap::RefCnt;
+            macro_rules! decp {
+                ($name:expr, $t:ty, $mk:expr) => {{
+                    let h: $t = $mk;
+                    let heap = h.heap_ptr() as usize;
+                    let keep = h.clone();
+                    let evs = record(heap, move || <$t as RefCnt>::dec(<$t as RefCnt>::into_ptr(h)));
+                    entry(&mut l, "dec", $name, "shared", evs);
+                    let evs = record(heap, move || <$t as RefCnt>::dec(<$t as RefCnt>::into_ptr(keep)));
+                    entry(&mut l, "dec", $name, "last", evs);
+                }};
+            }
+            decp!("RefCnt::dec(Arc)", Arc<A>, Arc::new(A::mk(1)));
+            decp!("RefCnt::dec(ThinArc)", Thin, thin(1));
+            dec!("Arc<HeaderSlice>::drop", Arc::from_thin(thin(1)), |h: &Fat| h.heap_ptr() as usize, |h: &Fat| h.clone());
+        }
         {
             // Arc<[T]> with droppable elements
             let h: Arc<[A]> = Arc::from(vec![A::mk(1)]);
